@@ -33,6 +33,16 @@ func (c *FnCtx) calleeName(cc *ssa.CallCommon) (string, *ssa.Function) {
 	if cc.IsInvoke() {
 		return "(" + shortTypeFull(cc.Value.Type()) + ")." + cc.Method.Name(), nil
 	}
+	// call through a function-typed struct field: named "field <T>.<f>" so a contract can be attached
+	if u, ok := cc.Value.(*ssa.UnOp); ok && u.Op.String() == "*" {
+		if fa, ok := u.X.(*ssa.FieldAddr); ok {
+			if pt, ok := fa.X.Type().Underlying().(*types.Pointer); ok {
+				if st, ok := pt.Elem().Underlying().(*types.Struct); ok {
+					return "field " + shortTypeFull(pt.Elem()) + "." + st.Field(fa.Field).Name(), nil
+				}
+			}
+		}
+	}
 	if fn := cc.StaticCallee(); fn != nil {
 		name := fn.String()
 		if fn.Origin() != nil {
@@ -101,8 +111,11 @@ func (c *FnCtx) doCall(res *ssa.Call, cc *ssa.CallCommon, site ssa.Instruction) 
 	}
 	ord := 0
 	if name != "" {
-		c.calleeOrd[shortName(name)]++
-		ord = c.calleeOrd[shortName(name)]
+		ord = c.callOrdOf[site]
+		if ord == 0 {
+			c.calleeOrd[shortName(name)]++
+			ord = 1000 + c.calleeOrd[shortName(name)]
+		}
 	}
 	c.callAnchor(site, name, ord, args)
 	if name != "" {
